@@ -90,9 +90,19 @@ def coq_make(jobs=16, timeout=3000, pid=None):
         return False, out
     targets = []
     if pid:
-        targets = ["Properties/%s.vo" % pid] + [f[:-2] + ".vo" for f in files if f.startswith("Model/") or f.startswith("Extract/")]
+        # the property file itself is compiled (once per change) by coq_property, which keeps its Print Assumptions output
+        targets = property_deps(pid) + [f[:-2] + ".vo" for f in files if f.startswith("Model/") or f.startswith("Extract/")]
     rc, out2 = sh(["make", "-f", "Makefile.coq", "-j%d" % jobs] + targets, cwd=COQ, timeout=timeout)
     return rc == 0, out + out2
+
+def property_deps(pid):
+    """The .vo files Properties/<pid>.v requires directly (coqdep); make builds them with everything below them."""
+    rc, out = sh(["coqdep", "-Q", ".", "BB", os.path.join("Properties", pid + ".v")], cwd=COQ, timeout=120)
+    deps = []
+    for line in out.split("\n"):
+        if line.startswith("Properties/%s.vo" % pid) and ":" in line:
+            deps = [d for d in line.split(":", 1)[1].split() if d.endswith(".vo")]
+    return deps
 
 THEOREM_RE = re.compile(r"^\s*(Theorem|Lemma|Corollary|Example)\s+([A-Za-z0-9_']+)", re.M)
 
@@ -110,7 +120,26 @@ def coq_property(pid, timeout=900):
     res["obligations"] = len(names)
     res["theorems"] = names
     t0 = time.time()
-    rc, out = sh(["coqc", "-Q", ".", "BB", os.path.join("Properties", pid + ".v")], cwd=COQ, timeout=timeout)
+    # Compiled once per change: if Properties/<pid>.vo is newer than its source and than every .vo it requires (which
+    # coq_make has just brought up to date, the files generated from /repo included) the output of the compile that
+    # produced it is reused; otherwise the file is compiled now.
+    vo = f[:-2] + ".vo"
+    logf = os.path.join(CACHE, "props", pid + ".log")
+    deps = [os.path.join(COQ, d) for d in property_deps(pid)]
+    fresh = (os.path.exists(vo) and os.path.exists(logf) and deps and all(os.path.exists(d) for d in deps)
+             and os.path.getmtime(vo) >= max([os.path.getmtime(f)] + [os.path.getmtime(d) for d in deps])
+             and os.path.getmtime(logf) >= os.path.getmtime(vo) and os.environ.get("VERIF_NO_PROP_CACHE") != "1")
+    if fresh:
+        rc, out = 0, open(logf).read()
+        res["reused_compile"] = True
+    else:
+        rc, out = sh(["coqc", "-Q", ".", "BB", os.path.join("Properties", pid + ".v")], cwd=COQ, timeout=timeout)
+        os.makedirs(os.path.dirname(logf), exist_ok=True)
+        if rc == 0:
+            open(logf, "w").write(out)
+        elif os.path.exists(logf):
+            os.remove(logf)
+        res["reused_compile"] = False
     res["log"] = out
     res["coqc_s"] = round(time.time() - t0, 2)
     if rc != 0:
